@@ -21,6 +21,8 @@ TIF = 12
 
 
 def payload_bytes(rec) -> bytes:
+    if rec.get('payload_raw') is not None:
+        return bytes(rec['payload_raw'])
     if rec.get('payload') is not None:
         return bytes.fromhex(rec['payload'])
     n = rec['len']
@@ -255,7 +257,7 @@ def fix_reversed(model):
     property (first 'next' word 0x100 or 0x10000): fall back to normal TIF for those."""
     if model['tif'] == 'reversed':
         rec = model['records'][0]
-        first = chunks_of(model, rec, rec['len'] if rec.get('payload') is None else len(bytes.fromhex(rec['payload'])))[0]
+        first = chunks_of(model, rec, len(payload_bytes(rec)))[0]
         nxt = 12 + PRH + first + trailer_len(model)
         if nxt in (0x100, 0x10000) or nxt <= 0:
             model['tif'] = 'normal'
